@@ -3,6 +3,9 @@
    of ring instances (hash.ConsistentHash objects, cache clusters, kv stores); after every
    operation the driver looks every probe key up and logs the owners ("got": node ids,
    0 = (nil,false), -1 = Get panicked) and the (node, Go value) pairs returned ("forms").
+   reset.vals (optional) describes the Go values behind the node ids: nodes are numbered by NAME
+   (Ring.tla ValsOK, RingRepr.tla), which the driver derives from the typed value, not from
+   lang.Repr; returned values are mapped back to (node, form) by Go equality with those values.
 
    CheckPlacement = FALSE (RingTrace.cfg): the recorded events must be a behaviour of Ring.tla
      -- the property, nothing else.  This is the verdict.
@@ -17,7 +20,7 @@ EXTENDS Ring, RingPlace, TraceKit
 CONSTANT CheckPlacement
 
 VARIABLES l, tvh, tkh
-tvars == <<nodeset, nk, caps, members, assign, memo, l, tvh, tkh>>
+tvars == <<nodeset, nk, caps, members, assign, memo, vals, l, tvh, tkh>>
 
 E == Trace[l]
 IsEvent(e) == l <= Len(Trace) /\ E.e = e /\ l' = l + 1
@@ -26,7 +29,7 @@ Forms == {<<p[1], p[2]>> : p \in SeqToSet(E.forms)}
 Placed(i) == CheckPlacement => PlacedOK(tvh', tkh', members'[i], E.got)
 
 TReset ==
-  /\ IsEvent("reset") /\ PReset(E.nn, E.nk)
+  /\ IsEvent("reset") /\ PReset(E.nn, E.nk, IF "vals" \in DOMAIN E THEN E.vals ELSE Empty)
   /\ IF CheckPlacement THEN tvh' = E.vh /\ tkh' = E.kh ELSE tvh' = <<>> /\ tkh' = <<>>
 TNew   == IsEvent("new")   /\ PNew(E.i, E.cap, E.got)                            /\ UNCHANGED <<tvh, tkh>> /\ Placed(E.i)
 TOp    == IsEvent("op")    /\ POp(E.i, E.n, E.kind, E.arg, E.f, E.got, Forms)    /\ UNCHANGED <<tvh, tkh>> /\ Placed(E.i)
